@@ -277,8 +277,8 @@ func runC13Cell(e *core.Env, r *rand.Rand, c *Carrier, scheme string, secure boo
 		e.Violate("creds/call-failed/"+scheme, fmt.Sprintf("%s: call should work but failed: %v", cell, out.Err), w)
 		return
 	}
-	if creds.calls.Load() != 1 {
-		e.Violate("creds/calls", fmt.Sprintf("%s: GetRequestMetadata called %d times", cell, creds.calls.Load()), w)
+	if creds.calls.Load() < 1 {
+		e.Violate("creds/calls", fmt.Sprintf("%s: the call succeeded although the credentials were never asked for their metadata", cell), w)
 	}
 	// handler metadata = caller values followed by credential values
 	want := metadata.MD{}
